@@ -149,10 +149,23 @@ def expected_info(e):
 
 def observed_info(method):
     i = method.getSignatureInfo()
-    return {'positional': list(i['positional']),
-            'required': list(i['required']),
-            'optional': dict(i['optional']),
-            'varargs': i['varargs'], 'kwargs': i['kwargs']}
+    out = {'positional': list(i['positional']),
+           'required': list(i['required']),
+           'optional': dict(i['optional']),
+           'varargs': i['varargs'], 'kwargs': i['kwargs']}
+    # the report is the caller's to keep: post-processing it (dropping keys
+    # from the returned mapping) must not change what the next call reports
+    for k in list(i):
+        del i[k]
+    j = method.getSignatureInfo()
+    again = {'positional': list(j.get('positional', ['<missing>'])),
+             'required': list(j.get('required', ['<missing>'])),
+             'optional': dict(j.get('optional', {'<missing>': 1})),
+             'varargs': j.get('varargs', '<missing>'),
+             'kwargs': j.get('kwargs', '<missing>')}
+    if again != out:
+        out['asked again after the caller emptied the first report'] = again
+    return out
 
 
 def replay_c18(case):
@@ -357,23 +370,56 @@ def guard_binds(attr, shapes, with_self, src):
 def replay_pair(case):
     global evaluations
     kind, tent = case['kind'], case['tent']
+    factory = kind == 'cfunc'
+    if factory:
+        # built like a function attribute of an instance; the candidate is a
+        # factory FUNCTION declared with implementer() and given to
+        # verifyClass
+        kind = 'func'
     ns = namespace()
     isrc = render_def('m', case['iparams'], indent='    ')
     msrc = render_def('m', case['mparams'],
                       indent='' if kind == 'func' else '    ')
-    if kind == 'func':
-        src = ('class I(Interface):\n' + isrc +
-               '@implementer(I)\nclass C(object):\n    pass\n' + msrc +
-               'ob = C()\nob.m = m\n')
+    PAIR_SERIAL[0] += 1
+    head = 'class I(Interface):\n'
+    if PAIR_SERIAL[0] % 2:
+        # the interface RE-DEFINES a method of its base with another
+        # signature: only the most specific definition counts
+        head = ('class I0(Interface):\n    def m(q1, q2, q3, q4, q5, q6):\n'
+                '        pass\n    def m0(*args, **kw):\n        pass\n'
+                'class I(I0):\n    def m0(*args, **kw):\n        pass\n')
+        msrc_extra = ('%sdef m0(%s*args, **kw):\n%s    pass\n' % (
+            '' if kind == 'func' else '    ',
+            '' if kind == 'func' else 'self, ',
+            '' if kind == 'func' else '    '))
     else:
-        src = ('class I(Interface):\n' + isrc +
-               '@implementer(I)\nclass C(object):\n' + msrc + 'ob = C()\n')
+        msrc_extra = ''
+    if kind == 'func':
+        src = (head + isrc +
+               '@implementer(I)\nclass C(object):\n    pass\n' + msrc +
+               msrc_extra + 'ob = C()\nob.m = m\n' +
+               ('ob.m0 = m0\n' if msrc_extra else ''))
+    else:
+        src = (head + isrc +
+               '@implementer(I)\nclass C(object):\n' + msrc + msrc_extra +
+               'ob = C()\n')
     exec(src, ns)
     I, C, ob = ns['I'], ns['C'], ns['ob']
     where = {'interface': isrc.strip().split('\n')[0],
              'implementation': msrc.strip().split('\n')[0],
-             'kind': kind, 'tentative': tent, 'why': unnone(case['why'])}
-    if kind == 'class':
+             'kind': case['kind'], 'tentative': tent,
+             'why': unnone(case['why'])}
+    if factory:
+        def make():
+            return None
+        make.m = ns['m']
+        if msrc_extra:
+            make.m0 = ns['m0']
+        implementer(I)(make)
+        if not guard_binds(make.m, case['shapes'], False, src):
+            return
+        fut, cand = verifyClass, make
+    elif kind == 'class':
         if not guard_binds(C.__dict__['m'], case['shapes'], True, src):
             return
         fut, cand = verifyClass, C
@@ -386,6 +432,33 @@ def replay_pair(case):
     exp = expected_outcome(case['expect'])
     if got != exp:
         mismatch(fut.__name__, exp, got, where)
+    twin = case.get('twin')
+    if twin:
+        # the same function object under the other binding level
+        f = C.__dict__['m'] if kind == 'class' else ns['m']
+        extra = {'m0': ns['m0']} if msrc_extra and kind == 'func' else (
+            {'m0': C.__dict__['m0']} if msrc_extra else {})
+        if twin['kind'] == 'func':
+            C2 = implementer(I)(type('C2', (object,), {}))
+            cand2 = C2()
+            cand2.m = f
+            if extra:
+                cand2.m0 = lambda *args, **kw: None
+            fut2 = verifyObject
+        else:
+            C2 = implementer(I)(type('C2', (object,), dict(extra, m=f)))
+            cand2 = C2
+            fut2 = verifyClass
+        evaluations += 1
+        got2 = run_verify(fut2, I, cand2, tent)
+        exp2 = expected_outcome(twin['expect'])
+        if got2 != exp2:
+            mismatch(fut2.__name__ + ' (the same function, other binding '
+                     'level, looked at second)', exp2, got2,
+                     dict(where, twin_kind=twin['kind']))
+
+
+PAIR_SERIAL = [0]
 
 
 class _Opaque(object):
